@@ -1,15 +1,17 @@
 (* Engine `sinkbp` (C04, back-pressure), model side: one script line replayed on the extracted Model/SinkQueue.v.
    Same line protocol as harness/src/bin/sinkbp.rs:
      in : <cap> <sid> <raw|sub> | op op ...
+            <sid> = decimal number (SubscriptionId::Num)  |  s<hex of the UTF-8 text> (SubscriptionId::Str, raw mode only)
             s<x> t<x> o<x>      fresh message of payload x through send / try_send / send_timeout, slot x
             Rs<k> Rt<k> Ro<k>   re-send of the message held in slot k through send / try_send / send_timeout
             r                   recv          c   close
-     out: id=<sid> tok tok ...
+     out: id=<sid> tok tok ...       (string id: id=j<hex of the id as JSON text, i.e. Wire.ser_subid = `result` of the accepting response>)
             ok | full=<m> | timeout=<m> | closed=<m> | wouldblock | na      <m> = C<hex json> | N<hex raw>
             F<hex frame> (raw) | I<sid>:<hex result> (sub: Wire.parse_sub_notif of the frame) | E | empty | end
             done
-   The subscription id is an input here: the implementation draws it at random and reports it, the python glue
-   copies it into the model's line.  The notification method is "note". *)
+   The subscription id is an input here: a numeric id is drawn at random by the implementation and reported, the
+   python glue copies it into the model's line; a string id is configured by the case line on both sides (the harness
+   installs an IdProvider that returns it).  The notification method is "note". *)
 open Common
 open Sinkbp_model
 
@@ -30,6 +32,14 @@ exception Bad
 
 let path_of = function 's' -> PSend | 't' -> PTry | 'o' -> PTimeout | _ -> raise Bad
 let num s = if is_num s then n_of_string s else raise Bad
+let is_hex s = String.length s mod 2 = 0 && (let ok = ref true in String.iter (fun c -> match c with '0'..'9' | 'a'..'f' -> () | _ -> ok := false) s; !ok)
+
+(* <sid> -> (subid, the `id=` token) *)
+let sid_of mode s =
+  if is_num s then (SubNum (n_of_string s), "id=" ^ s)
+  else if mode = "raw" && String.length s >= 1 && s.[0] = 's' && is_hex (tail s 1) then
+    (let i = SubStr (bytes_of_hex (tail s 1)) in (i, "id=j" ^ hex_of_bytes (ser_subid i)))
+  else raise Bad
 
 let parse_op t =
   if t = "r" then ORecv
@@ -64,10 +74,11 @@ let handle line =
     (try
        let head = split_ws (String.sub line 0 i) and script = split_ws (tail line (i + 1)) in
        match head with
-       | [cap; sid; mode] when (mode = "raw" || mode = "sub") && is_num cap && is_num sid && int_of_string cap >= 1 ->
+       | [cap; sid; mode] when (mode = "raw" || mode = "sub") && is_num cap && int_of_string cap >= 1 ->
+         let (sid, idtok) = sid_of mode sid in
          let ops = List.map parse_op script in
-         let (_, tr) = run (n_of_string sid) (bytes_of_string "note") (init (nat_of_int (int_of_string cap))) ops in
-         print_endline (String.concat " " (("id=" ^ sid) :: List.map (fun (_, r) -> res_s (mode = "sub") r) tr))
+         let (_, tr) = run sid (bytes_of_string "note") (init (nat_of_int (int_of_string cap))) ops in
+         print_endline (String.concat " " (idtok :: List.map (fun (_, r) -> res_s (mode = "sub") r) tr))
        | _ -> print_endline "?bad-line"
      with Bad -> print_endline "?bad-line")
 
